@@ -363,12 +363,20 @@ def r3_invalidate_before_destroy(facts, rep):
     dirty = []
     n_reuse = 0
     badr = []
+    MUTATIONS = ("remove_file", "remove_dir_all", "remove_dir", "create_dir_all", "create_dir", "create_in_dir")
+    unrecovered = []
     for o in outs:
         if o.kind != "ret":
             bad.setdefault("panic", []).append("%s %s" % (o.kind, o.value))
             continue
         log = dom.log(o.store)
         labels = [e[0] for e in log]
+        v_ = o.value
+        if isinstance(v_, _Agg) and v_.path == "std::result::Result" and v_.vi == 1:
+            # open_index gives up only when the file system refuses a change: an index that cannot be opened is replaced
+            fails_ = [e[1] for e in log if e[0] == "fail" and len(e) > 1]
+            if not fails_ or fails_[-1] not in MUTATIONS:
+                unrecovered.append("returns an error after %s (effects %s)" % (fails_[-1:] or "no failed effect", labels))
         for i, lab in enumerate(labels):
             if lab in DESTROY:
                 n_destroy += 1
@@ -409,6 +417,9 @@ def r3_invalidate_before_destroy(facts, rep):
             rep.ob("C15-R3", "before:%s" % lab, lab not in bad,
                    "%s is %spreceded on every path by the removal of the marker file%s" % (lab, "" if lab not in bad else "NOT ", "" if lab not in bad else ": " + bad[lab][0]),
                    body.site(), sample={"site": lab})
+    rep.ob("C15-R3", "open-failure-is-recovered", not unrecovered,
+           "open_index fails only where removing or creating files fails; an index that cannot be opened is rebuilt" if not unrecovered else
+           "a start is lost for good: open_index " + unrecovered[0], body.site())
     if n_create:
         rep.ob("C15-R3", "create-in-clean-directory", not dirty,
                "Index::create_in_dir runs only after the old directory was wiped or seen absent (%d path(s))" % n_create if not dirty else
